@@ -23,7 +23,7 @@ EXPLANATION = (
     "reward, discount and extras are the terminal step's, and maybe_add is applied before the observation is replaced "
     "so extras['next_obs'] is the true successor observation; (R3) add_obs_to_extras stores timestep.observation under "
     "NEXT_OBS_KEY_IN_EXTRAS and __init__ wires it to next_obs_in_extras=True and the identity to False; (R4) reset "
-    "returns the inner reset's state unchanged and maybe_add of its timestep. 'Successive resets use different keys' "
+    "returns the inner reset's state unchanged and maybe_add of its timestep. (R6) precondition of the lax.cond between the auto-reset and the keep branch for every shipped environment: each State leaf with an inferable symbolic shape has the same shape after reset and after step. 'Successive resets use different keys' "
     "follows from R2 plus C10.R1 (State.key of every random generator derives from the reset key). "
     "Not decided: numerical agreement under jit/vmap/scan (XLA semantics).")
 
@@ -205,7 +205,9 @@ def check(tier: str) -> Result:
     vfg = VFG(tree, Model(tree))
     autoreset_obligations(res, "C13", vfg, tree, "AutoResetWrapper", batched=False)
     add_obs_obligation(res, "C13", vfg, tree)
-    res.analysed = {"classes": ["jumanji.wrappers.AutoResetWrapper"], "functions": sorted(vfg.visited_funcs)}
+    from . import shape_rules
+    n_shapes = shape_rules.state_shape_obligations(res, tree, "C13.R6")
+    res.analysed = {"classes": ["jumanji.wrappers.AutoResetWrapper"], "functions": sorted(vfg.visited_funcs), "state_leaf_shapes_compared": n_shapes}
     res.assumptions = ["the wrapped environment is abstract (any Environment); lax.cond selects one branch result",
                        "jax.random.split yields keys distinct from its input"]
     if len(res.obligations) < 10:
